@@ -236,7 +236,7 @@ def _check_vmap_keys(ctx, vfn, keys, prog, vals, args, d0):
         if ref.min_margin < 1e-4:
             continue
         t = R.tol(ref.abs_sum(), len(ref.sites))
-        if not math.isfinite(ref.total) or abs(float(trj.get_score()) + ref.total) > t:
+        if np.shape(trj.get_score()) != () or not math.isfinite(ref.total) or abs(float(trj.get_score()) + ref.total) > t:
             ctx.violation(
                 "vmap-keys(simulate)|score-not-minus-density",
                 {**d0, "lane": j, "choices": ch, "score": gfi.fnum(trj.get_score()), "reference_density": ref.total},
